@@ -248,10 +248,6 @@ where
     }
 
     fn solve(&mut self, timeout: Duration) -> Result<Path<S>, PlanningError> {
-        let mut rng = self
-            .rng
-            .take()
-            .unwrap_or_else(|| Box::new(StdRng::from_os_rng()));
         let start_time = Instant::now();
         let pd = self
             .problem_def
@@ -267,6 +263,13 @@ where
         if !vc.is_valid(&self.start_tree[0].state) {
             return Err(PlanningError::InvalidStartState);
         }
+
+        // Taken only once no early return is left; handed back below so that a later solve() or
+        // setup() continues the seeded sequence.
+        let mut rng = self
+            .rng
+            .take()
+            .unwrap_or_else(|| Box::new(StdRng::from_os_rng()));
 
         // The root of the goal tree is a sampled goal state: it must be valid as well. If the one
         // drawn in setup() is not, draw again (a bounded number of times) before giving up.
@@ -289,19 +292,23 @@ where
                         parent_index: None,
                     });
                 }
-                None => return Err(PlanningError::NoSolutionFound),
+                None => {
+                    self.rng = Some(rng);
+                    return Err(PlanningError::NoSolutionFound);
+                }
             }
         }
 
-        // Main loop
-        loop {
+        // Main loop. It yields the result instead of returning it so that the generator can be
+        // handed back afterwards.
+        let result = loop {
             // 1. Check for timeout
             if start_time.elapsed() > timeout {
-                return Err(PlanningError::Timeout);
+                break Err(PlanningError::Timeout);
             }
             #[cfg(feature = "verif")]
             if !crate::verif::take_tick() {
-                return Err(PlanningError::Timeout);
+                break Err(PlanningError::Timeout);
             }
 
             // 2. Determine which tree to grow (tree_a) and which to connect to (tree_b). This
@@ -330,7 +337,7 @@ where
                 // If growing the start tree, check if the new node is already in the goal.
                 if is_growing_start_tree && goal.is_satisfied(q_new) {
                     println!("Solution found by start tree reaching goal directly.");
-                    return Ok(self.reconstruct_path(&self.start_tree, new_node_idx_a));
+                    break Ok(self.reconstruct_path(&self.start_tree, new_node_idx_a));
                 }
 
                 // 5. Try to connect tree_b to the new state `q_new`.
@@ -361,10 +368,12 @@ where
                         // connection point) to the start path.
                         start_path.extend(goal_path.into_iter().skip(1));
 
-                        return Ok(Path(start_path));
+                        break Ok(Path(start_path));
                     }
                 }
             }
-        }
+        };
+        self.rng = Some(rng);
+        result
     }
 }
